@@ -25,7 +25,7 @@ CHECK = dict(
     bounds=dict(
         quick=("Cube 9 sizes x centre; Sphere 5 radii x 7 segment counts; Cylinder 4 heights x 5 rLow x 5 rHigh x 5 segs x centre; Extrude 6 polygons x 4 heights x "
                "3 nDivisions x 5 twists x 4 scaleTop; Revolve 11 polygons x 6 angles x 5 segs; LevelSet 4 sdf x 2 edge x 3 level x 2 tolerance; Rotate over "
-               "{0,30,90,180,270,360,-90}^3, 10 mirrors, 8 scales, 4 translations, 8 matrices, 4 warps on 5 bases; 20x20x2x5 chains; 240 Quality cases; "
+               "{0,30,90,180,270,360,-90}^3, 10 mirrors, 8 scales, 4 translations, 8 matrices, 4 warps on 5 bases; 20x20x2x5 chains; 14x14x3 transforms of unevaluated nested unions / intersections / differences; 240 Quality cases; "
                "default Quality for the constructor phases; 11^3-13^3 samples per case (8^3 for transforms); the ASan run uses 6^3"
                " samples"),
         thorough=("the same cross products, with Sphere/Cylinder/Revolve additionally run under Quality (segments,angle,length) = (0,30,0.1), (7,10,1), (0,10,0.1), (16,10,1), and 19^3-21^3 samples per case "
